@@ -1,424 +1,6 @@
 /-
-  C07 — V3 session discipline: no data before handshake, right key, bounded counter, expiry.
-
-  Stated over the Session model (`Model/Session.lean`: `LAN` + `_LanProtocolV3` as a discrete-event
-  simulation; the peer is an ARBITRARY reaction function, connection attempts have arbitrary
-  outcomes, the clock jumps arbitrarily) and proved for histories of ANY length by refinement:
-  every operation of the model is a run of the abstract connection automaton
-  (`Lemmas/SessionTrace.lean`), and every run of the automaton preserves the invariant
-  (`Lemmas/SessionAbs.lean`).  The write log is structural (kind, connection, counter, key, token,
-  frame); that the bytes on the wire carry exactly these is C05 (`request_eq_spec`,
-  `v3_spec_decodes_request`).
+  C07 — V3 session discipline: the theorems about the Session model (`Props/C07Session.lean`) and the counter discipline of
+  `_LanProtocolV3.write` as translated from the current source text (`Props/C07Code.lean`).
 -/
-import Msmart.Lemmas.SessionTrace
-import Msmart.Lemmas.SessionCreds
-
-namespace Msmart.Props.C07
-open Msmart Msmart.Model Msmart.Model.Session Msmart.Lemmas.Sess
-
-/-- a fresh `LAN` object: nothing logged, no connection (any scripted environment, any version) -/
-def Fresh (s : S) : Prop := s.w.log = [] ∧ s.w.nConn = 0 ∧ s.l.conn = none
-
-theorem inv_fresh {s : S} (h : Fresh s) : Inv (abs s) := by
-  obtain ⟨h1, h2, h3⟩ := h
-  refine ⟨?_, ?_, ?_, ?_⟩ <;> simp [abs, evsOf, coreOf, h1, h3, wf_nil]
-
-/-- **C07 (refinement + invariant).** After ANY history (any operations, any peer reactions, any
-    connection outcomes, any clock jumps) the session state satisfies the automaton invariant. -/
-theorem session_invariant (p : Params) (rx : Reactions) (ops : List Op) (s : S) (h : Inv (abs s)) :
-    Inv (abs (run p rx s ops).2) := by
-  obtain ⟨tr, htr⟩ := run_tr p rx ops s
-  exact h.run htr
-
-/-- the structural write log after a history -/
-def logAfter (p : Params) (rx : Reactions) (s : S) (ops : List Op) : List Ev := evsOf (run p rx s ops).2
-
-theorem log_wf (p : Params) (rx : Reactions) (ops : List Op) (s : S) (h : Fresh s) :
-    WF (logAfter p rx s ops) := (session_invariant p rx ops s (inv_fresh h)).wf
-
-/-- **C07 (no data before a handshake; right key).** In every history: an encrypted request is only
-    ever written on a connection on which a handshake reply was accepted earlier, and it is encrypted
-    under the session key of the LATEST handshake accepted on that same connection; the connection
-    was opened earlier in the history and not closed since. -/
-theorem data_under_latest_handshake_key (p : Params) (rx : Reactions) (ops : List Op) (s : S) (h : Fresh s)
-    (pre post : List Ev) (cid ctr : Nat) (k f : Bytes)
-    (hlog : logAfter p rx s ops = pre ++ [.wrData cid ctr k f] ++ post) :
-    lastAccept cid pre = some k ∧ (∃ v3, .connect cid v3 ∈ pre) ∧ .closed cid ∉ pre := by
-  have := log_wf p rx ops s h pre _ post hlog
-  exact ⟨this.1, this.2.2.1, this.2.2.2⟩
-
-theorem foldl_keyStep_mem {cid : Nat} (l : List Ev) (k0 : Option Bytes) {k : Bytes}
-    (h : l.foldl (keyStep cid) k0 = some k) : k0 = some k ∨ .accept cid k ∈ l := by
-  induction l generalizing k0 with
-  | nil => exact .inl h
-  | cons e t ih =>
-    simp only [List.foldl_cons] at h
-    rcases ih _ h with h1 | h1
-    · cases e <;> simp only [keyStep] at h1
-      case accept c k' =>
-        by_cases hc : c = cid
-        · rw [if_pos hc] at h1; cases h1; subst hc; exact .inr (List.mem_cons_self ..)
-        · rw [if_neg hc] at h1; exact .inl h1
-      case forget c =>
-        by_cases hc : c = cid
-        · rw [if_pos hc] at h1; cases h1
-        · rw [if_neg hc] at h1; exact .inl h1
-      all_goals exact .inl h1
-    · exact .inr (List.mem_cons_of_mem _ h1)
-
-theorem lastAccept_some_mem {cid : Nat} {l : List Ev} {k : Bytes} (h : lastAccept cid l = some k) : .accept cid k ∈ l := by
-  rcases foldl_keyStep_mem l none h with h1 | h1
-  · cases h1
-  · exact h1
-
-/-- the handshake whose key a data packet uses is the LATEST handshake started on the connection: no
-    later handshake attempt (successful or not) lies between that acceptance and the data packet -/
-theorem lastAccept_no_later_forget {cid : Nat} (l1 l2 : List Ev) {k : Bytes}
-    (h : lastAccept cid (l1 ++ [.forget cid] ++ l2) = some k) : .accept cid k ∈ l2 := by
-  unfold lastAccept at h
-  rw [List.foldl_append, List.foldl_append] at h
-  simp only [List.foldl_cons, List.foldl_nil, keyStep, if_true] at h
-  rcases foldl_keyStep_mem l2 none h with h1 | h1
-  · cases h1
-  · exact h1
-
-/-- in particular an accepted handshake reply precedes every encrypted request on its connection -/
-theorem handshake_precedes_data (p : Params) (rx : Reactions) (ops : List Op) (s : S) (h : Fresh s)
-    (pre post : List Ev) (cid ctr : Nat) (k f : Bytes)
-    (hlog : logAfter p rx s ops = pre ++ [.wrData cid ctr k f] ++ post) : .accept cid k ∈ pre :=
-  lastAccept_some_mem (data_under_latest_handshake_key p rx ops s h pre post cid ctr k f hlog).1
-
-/-- **C07 (no data after a failed handshake).** If a handshake was started on the connection (the
-    previous key is forgotten at that moment) before an encrypted request, then a handshake reply was
-    accepted AFTER that start: once a re-handshake has been attempted, the old key is never used again —
-    whether the attempt failed by timeout, error packet, a reply that does not verify, or cancellation. -/
-theorem no_data_after_failed_handshake (p : Params) (rx : Reactions) (ops : List Op) (s : S) (h : Fresh s)
-    (l1 l2 post : List Ev) (cid ctr : Nat) (k f : Bytes)
-    (hlog : logAfter p rx s ops = l1 ++ [.forget cid] ++ l2 ++ [.wrData cid ctr k f] ++ post) :
-    .accept cid k ∈ l2 := by
-  have := (data_under_latest_handshake_key p rx ops s h (l1 ++ [.forget cid] ++ l2) post cid ctr k f hlog).1
-  exact lastAccept_no_later_forget l1 l2 this
-
-/-- **C07 (counter).** In every history, of any length: each V3 packet (handshake request or encrypted
-    request) carries as its counter the number of V3 packets written earlier on the same connection,
-    modulo 4096 — i.e. 0 for the first packet of a connection and the previous counter plus one,
-    wrapping to zero, for every later one; no bound on the number of packets. -/
-theorem counter_is_packet_index (p : Params) (rx : Reactions) (ops : List Op) (s : S) (h : Fresh s)
-    (pre post : List Ev) (e : Ev) (hlog : logAfter p rx s ops = pre ++ [e] ++ post) :
-    (∀ cid ctr k f, e = .wrData cid ctr k f → ctr = nPackets cid pre % 4096) ∧
-    (∀ cid ctr tok, e = .wrHS cid ctr tok → ctr = nPackets cid pre % 4096) := by
-  have := log_wf p rx ops s h pre e post hlog
-  refine ⟨?_, ?_⟩
-  · intro cid ctr k f he; subst he; exact this.2.1
-  · intro cid ctr tok he; subst he; exact this.1
-
-def pktCid : Ev → Option Nat
-  | .wrHS c _ _ => some c | .wrData c _ _ _ => some c | _ => none
-def pktCtr : Ev → Nat
-  | .wrHS _ c _ => c | .wrData _ c _ _ => c | _ => 0
-
-theorem nPackets_skip (cid : Nat) (mid : List Ev) (h : ∀ x ∈ mid, pktCid x ≠ some cid) : nPackets cid mid = 0 := by
-  induction mid with
-  | nil => rfl
-  | cons x t ih =>
-    have hx := h x (List.mem_cons_self ..)
-    have ht := ih (fun y hy => h y (List.mem_cons_of_mem _ hy))
-    cases x <;> simp only [nPackets, ht, pktCid] at * <;> (try rw [if_neg (by intro hh; exact hx (by rw [hh]))])
-
-/-- the same in "previous plus one" form: two consecutive V3 packets of one connection -/
-theorem counter_step (p : Params) (rx : Reactions) (ops : List Op) (s : S) (h : Fresh s)
-    (pre mid post : List Ev) (e1 e2 : Ev) (cid : Nat)
-    (h1 : pktCid e1 = some cid) (h2 : pktCid e2 = some cid) (hmid : ∀ x ∈ mid, pktCid x ≠ some cid)
-    (hlog : logAfter p rx s ops = pre ++ [e1] ++ mid ++ [e2] ++ post) :
-    pktCtr e2 = (pktCtr e1 + 1) % 4096 := by
-  have w := log_wf p rx ops s h
-  have w1 := w pre e1 (mid ++ [e2] ++ post) (by rw [hlog]; simp)
-  have w2 := w (pre ++ [e1] ++ mid) e2 post (by rw [hlog])
-  have hn : nPackets cid (pre ++ [e1] ++ mid) = nPackets cid pre + 1 := by
-    rw [nPackets_append, nPackets_append, nPackets_skip cid mid hmid]
-    cases e1 <;> simp [pktCid] at h1 <;> subst h1 <;> simp [nPackets]
-  have c1 : pktCtr e1 = nPackets cid pre % 4096 := by
-    cases e1 <;> simp [pktCid] at h1 <;> subst h1
-    · exact w1.1
-    · exact w1.2.1
-  have c2 : pktCtr e2 = nPackets cid (pre ++ [e1] ++ mid) % 4096 := by
-    cases e2 <;> simp [pktCid] at h2 <;> subst h2
-    · exact w2.1
-    · exact w2.2.1
-  rw [c2, c1, hn]; omega
-
-/-- the first V3 packet on a connection carries counter 0 -/
-theorem counter_starts_at_zero (p : Params) (rx : Reactions) (ops : List Op) (s : S) (h : Fresh s)
-    (pre post : List Ev) (e : Ev) (cid : Nat) (h1 : pktCid e = some cid) (hpre : ∀ x ∈ pre, pktCid x ≠ some cid)
-    (hlog : logAfter p rx s ops = pre ++ [e] ++ post) : pktCtr e = 0 := by
-  have w := log_wf p rx ops s h pre e post hlog
-  have hz := nPackets_skip cid pre hpre
-  cases e <;> simp [pktCid] at h1 <;> subst h1
-  · have := w.1; simp [pktCtr, this, hz]
-  · have := w.2.1; simp [pktCtr, this, hz]
-
-/-! ### "on a V3 device": after the first `authenticate` nothing but V3 traffic is ever written -/
-
-theorem v3inv_after_authenticate (p : Params) (rx : Reactions) (s : S) (hs : s.l.conn = none) (t k : Bytes) :
-    V3Inv (abs (step p rx s (.authenticate t k)).2) := by
-  have hal : connAlive s = false := by unfold connAlive; rw [hs]
-  have hn : (setVersion3 (opDisconnect s)).l.conn = none := conn_opDisconnect s
-  have hv0 : V3Inv (abs (setVersion3 (opDisconnect s))) := ⟨rfl, by simp [abs, coreOf, hn]⟩
-  cases hl : lanAuthenticate p rx (setVersion3 (opDisconnect s)) (some t) (some k) Generated.lanRetries with
-  | mk r s1 =>
-    obtain ⟨s1', tc, ta, g1, g2, _⟩ := lanAuthenticate_tr hl
-    have hv1 : V3Inv (abs s1) := (hv0.run (g1.trans g2)).1
-    have : (step p rx s (.authenticate t k)).2 = s1 := by
-      simp only [step]
-      rw [lanAuthenticate_reconnect (.inl hal), hl]
-      cases r <;> rfl
-    rw [this]; exact hv1
-
-/-- **C07 (V3 only).** In a history that starts with `authenticate` (which is how a `LAN` learns that
-    its device is V3), whatever happens afterwards: every connection is opened as a V3 connection
-    and no unencrypted V2 packet is ever written. -/
-theorem v3_traffic_only (p : Params) (rx : Reactions) (s : S) (h : Fresh s) (t k : Bytes) (ops : List Op) :
-    ∀ e ∈ logAfter p rx s (.authenticate t k :: ops),
-      (∀ cid f, e ≠ .wrV2 cid f) ∧ (∀ cid v3, e = .connect cid v3 → v3 = true) := by
-  -- first step: from the fresh state, through the reconnect branch
-  have hs : s.l.conn = none := h.2.2
-  have hal : connAlive s = false := by unfold connAlive; rw [hs]
-  have hn : (setVersion3 (opDisconnect s)).l.conn = none := conn_opDisconnect s
-  have hv0 : V3Inv (abs (setVersion3 (opDisconnect s))) := ⟨rfl, by simp [abs, coreOf, hn]⟩
-  have hd0 : opDisconnect s = s := opDisconnect_none hs
-  have he0 : evsOf (setVersion3 (opDisconnect s)) = [] := by rw [hd0]; simp [evsOf, setVersion3, h.1]
-  cases hl : lanAuthenticate p rx (setVersion3 (opDisconnect s)) (some t) (some k) Generated.lanRetries with
-  | mk r s1 =>
-    obtain ⟨s1', tc, ta, g1, g2, _⟩ := lanAuthenticate_tr hl
-    have hs1 : (step p rx s (.authenticate t k)).2 = s1 := by
-      simp only [step]
-      rw [lanAuthenticate_reconnect (.inl hal), hl]
-      cases r <;> rfl
-    obtain ⟨tr2, g3⟩ := run_tr p rx ops s1
-    have hrun := (g1.trans g2).trans g3
-    obtain ⟨_, hall⟩ := hv0.run hrun
-    have hlog : logAfter p rx s (.authenticate t k :: ops) = tc ++ ta ++ tr2 := by
-      have := hrun.evs
-      simp only [abs] at this
-      rw [he0] at this
-      simpa [logAfter, run, hs1] using this
-    intro e he
-    rw [hlog] at he
-    exact hall e he
-
-/-! ### the handshake request carries the configured token -/
-
-/-- **C07 (token, explicit authenticate).** Every handshake request written by `authenticate(t, k)`
-    carries `t`; and nothing but handshake requests is written by it. -/
-theorem authenticate_writes_only_handshakes_with_token (p : Params) (rx : Reactions) (s s' : S) (t k : Bytes)
-    (o : Outcome) (h : step p rx s (.authenticate t k) = (o, s')) :
-    ∃ tr, evsOf s' = evsOf s ++ tr ∧ (∀ e ∈ tr, isData e = false) ∧
-      (∀ cid ctr tok, .wrHS cid ctr tok ∈ tr → tok = t) := by
-  simp only [step] at h
-  cases hl : lanAuthenticate p rx s (some t) (some k) Generated.lanRetries with
-  | mk r s1 =>
-    rw [hl] at h
-    have hs' : s' = s1 := by cases r <;> simp [outcomeOfAuth] at h <;> exact h.2.symm
-    subst hs'
-    obtain ⟨s1', tc, ta, g1, g2, g3, g4, _⟩ := lanAuthenticate_tr hl
-    refine ⟨tc ++ ta, (g1.trans g2).evs, ?_, ?_⟩
-    · intro e he
-      rcases List.mem_append.1 he with he | he
-      · rcases g3 e he with h1 | h1 <;> cases e <;> simp_all [isClosed, isConnect, isData]
-      · rcases g4 e he with ⟨_, _, _, rfl, _⟩ | h1 | h1
-        · rfl
-        · cases e <;> simp_all [isAccept, isKeyEv, isData]
-        · cases e <;> simp_all [isClosed, isData]
-    · intro cid ctr tok he
-      rcases List.mem_append.1 he with he | he
-      · rcases g3 _ he with h1 | h1 <;> simp [isClosed, isConnect] at h1
-      · rcases g4 _ he with ⟨_, _, t', heq, htok⟩ | h1 | h1
-        · cases heq
-          simp [pickCred] at htok
-          exact htok.symm
-        · simp [isAccept, isKeyEv] at h1
-        · simp [isClosed] at h1
-
-/-- **C07 (token, implicit).** Every handshake request written by a `send` (after a reconnect or an
-    expiry) carries the stored token, and `send` never changes the stored credentials; the stored
-    credentials are exactly those of the last successful `authenticate`. -/
-theorem send_handshakes_carry_stored_token (p : Params) (rx : Reactions) (s s' : S) (f : Bytes) (n : Nat)
-    (r : R (List Bytes)) (h : lanSend p rx s f n = (r, s')) :
-    creds s' = creds s ∧
-    ∃ tr, evsOf s' = evsOf s ++ tr ∧ (∀ cid ctr tok, .wrHS cid ctr tok ∈ tr → s.l.token = some tok) := by
-  refine ⟨creds_lanSend h, ?_⟩
-  obtain ⟨s1, s2, tc, ta, te, g1, g2, g3, k1, k2, k3, _⟩ := lanSend_tr h
-  refine ⟨tc ++ ta ++ te, ((g1.trans g2).trans g3).evs, ?_⟩
-  intro cid ctr tok he
-  rcases List.mem_append.1 he with he | he
-  · rcases List.mem_append.1 he with he | he
-    · rcases k1 _ he with h1 | h1 <;> simp [isClosed, isConnect] at h1
-    · rcases k2 _ he with ⟨_, _, t', heq, htok⟩ | h1 | h1
-      · cases heq; exact htok
-      · simp [isAccept, isKeyEv] at h1
-      · simp [isClosed] at h1
-  · rcases k3 _ he with (⟨_, _, _, h1⟩ | ⟨_, h1⟩) | h1
-    · cases h1
-    · cases h1
-    · simp [isClosed] at h1
-
-theorem stored_credentials (p : Params) (rx : Reactions) (s : S) (t k : Bytes) :
-    let r := step p rx s (.authenticate t k)
-    (r.1 = .done ∧ creds r.2 = (some t, some k)) ∨ (r.1 ≠ .done ∧ creds r.2 = creds s) := by
-  simp only [step]
-  cases hl : lanAuthenticate p rx s (some t) (some k) Generated.lanRetries with
-  | mk r s1 =>
-    rcases creds_lanAuthenticate hl with ⟨rfl, hc⟩ | ⟨⟨e, rfl⟩, hc⟩
-    · exact .inl ⟨rfl, by simpa [outcomeOfAuth, pickCred] using hc⟩
-    · exact .inr ⟨by simp [outcomeOfAuth], by simpa [outcomeOfAuth] using hc⟩
-
-/-! ### expiry -/
-
-theorem mem_split_data {ta te pre post : List Ev} {e : Ev} (h : ta ++ te = pre ++ [e] ++ post)
-    (hta : ∀ x ∈ ta, x ≠ e) : ∃ a', pre = ta ++ a' ∧ te = a' ++ [e] ++ post := by
-  rw [List.append_assoc] at h
-  rcases List.append_eq_append_iff.1 h with ⟨a', h1, h2⟩ | ⟨c', h1, h2⟩
-  · exact ⟨a', h1, by rw [h2]; simp⟩
-  · cases c' with
-    | nil => simp at h1 h2; exact ⟨[], by simp [h1], by simp [h2]⟩
-    | cons x t =>
-      simp only [List.cons_append, List.cons.injEq] at h2
-      exfalso
-      exact hta e (by rw [h1]; simp [h2.1]) rfl
-
-/-- **C07 (12 h authentication expiry).** If at the start of an exchange the V3 protocol object is not
-    authenticated (in particular: its session key is older than the authentication lifetime
-    `AUTHENTICATION_EXPIRATION`, regenerated from the source), then whatever the peer does, every data
-    packet written by that exchange is preceded — within the exchange, on the same connection — by a
-    newly accepted handshake reply. -/
-theorem expiry_forces_handshake (p : Params) (rx : Reactions) (s s' : S) (f : Bytes) (n : Nat) (r : R (List Bytes))
-    (hal : connAlive s = true) (hv3 : isV3 s = true) (hna : authenticated s = false)
-    (h : lanSend p rx s f n = (r, s')) :
-    ∃ tr, evsOf s' = evsOf s ++ tr ∧
-      ∀ pre e post, tr = pre ++ [e] ++ post → isData e = true → ∃ k, .accept (evCid e) k ∈ pre := by
-  obtain ⟨s1, s2, tc, ta, te, g1, g2, g3, k1, k2, k3, _, k5, _, k7, _⟩ := lanSend_tr h
-  have htc := k5 hal; subst htc
-  have hrun := (g1.trans g2).trans g3
-  refine ⟨[] ++ ta ++ te, hrun.evs, ?_⟩
-  intro pre e post hdec hdata
-  simp only [List.nil_append] at hdec hrun
-  -- e is not in the authentication part
-  have hta : ∀ x ∈ ta, x ≠ e := by
-    intro x hx hxe; subst hxe
-    rcases k2 x hx with ⟨_, _, _, rfl, _⟩ | h1 | h1
-    · simp [isData] at hdata
-    · cases x <;> simp_all [isAccept, isKeyEv, isData]
-    · cases x <;> simp_all [isClosed, isData]
-  obtain ⟨a', hpre, hte⟩ := mem_split_data hdec hta
-  have hne : te ≠ [] := by rw [hte]; simp
-  obtain ⟨_, hacc⟩ := k7 hne
-  obtain ⟨x, hx, hxa⟩ := hacc (.inl ⟨hal, hv3, hna⟩)
-  -- all events of the exchange are on the connection that was current at its start
-  have hnoconn : ∀ y ∈ ta ++ te, isConnect y = false := by
-    intro y hy
-    rcases List.mem_append.1 hy with hy | hy
-    · rcases k2 y hy with ⟨_, _, _, rfl, _⟩ | h1 | h1
-      · rfl
-      · cases y <;> simp_all [isAccept, isKeyEv, isConnect]
-      · cases y <;> simp_all [isClosed, isConnect]
-    · rcases k3 y hy with (⟨_, _, _, rfl⟩ | ⟨_, rfl⟩) | h1
-      · rfl
-      · rfl
-      · cases y <;> simp_all [isClosed, isConnect]
-  have hcore : ∃ c, (abs s).core = some c := by
-    unfold connAlive at hal
-    cases hc : s.l.conn with
-    | none => rw [hc] at hal; cases hal
-    | some c => exact ⟨c.core, by simp [abs, coreOf, hc]⟩
-  obtain ⟨c, hc⟩ := hcore
-  obtain ⟨hcid, _⟩ := run_same_cid hrun hnoconn c hc
-  have hxc := hcid x (List.mem_append.2 (.inl hx))
-  have hec := hcid e (by rw [hdec]; simp)
-  cases x <;> simp [isAccept] at hxa
-  rename_i xc xk
-  simp only [evCid] at hxc
-  exact ⟨xk, by rw [hec, ← hxc, hpre]; exact List.mem_append.2 (.inl hx)⟩
-
-/-- **C07 (connection lifetime).** If at the start of an exchange the connection is not alive (in
-    particular: the configured maximum connection lifetime has elapsed, or the peer closed it), then
-    everything the exchange writes is written on a connection opened during that exchange, and every
-    data packet is preceded, on that new connection, by a newly accepted handshake reply. -/
-theorem lifetime_forces_new_connection (p : Params) (rx : Reactions) (s s' : S) (f : Bytes) (n : Nat)
-    (r : R (List Bytes)) (hinv : Inv (abs s)) (hal : connAlive s = false)
-    (h : lanSend p rx s f n = (r, s')) :
-    ∃ tr, evsOf s' = evsOf s ++ tr ∧
-      ∀ pre e post, tr = pre ++ [e] ++ post → (isData e = true ∨ isHs e = true) →
-        (∃ v3, .connect (evCid e) v3 ∈ pre) ∧
-        (∀ cid ctr k fr, e = .wrData cid ctr k fr → .accept cid k ∈ pre) := by
-  obtain ⟨s1, s2, tc, ta, te, g1, g2, g3, k1, k2, k3, _, _, k6, _⟩ := lanSend_tr h
-  have hrun := (g1.trans g2).trans g3
-  have hinv' : Inv (abs s') := hinv.run hrun
-  have hevs : evsOf s' = evsOf s ++ (tc ++ ta ++ te) := hrun.evs
-  refine ⟨tc ++ ta ++ te, hevs, ?_⟩
-  intro pre e post hdec hkind
-  have hwf := hinv'.wf (evsOf s ++ pre) e post (by
-    show evsOf s' = _
-    rw [hevs, hdec]; simp)
-  -- a connection of the old log is closed before anything is written
-  have hold : ∀ v3, .connect (evCid e) v3 ∈ evsOf s → .closed (evCid e) ∈ evsOf s ++ pre := by
-    intro v3 hm
-    rcases hinv.others _ _ hm with hcl | ⟨c, hc, hcid⟩
-    · exact List.mem_append.2 (.inl hcl)
-    · obtain ⟨tc', htc'⟩ := k6 hal c hc
-      -- the first event of the exchange is the close of that connection; e is a write, so it is later
-      cases pre with
-      | nil =>
-        exfalso
-        rw [htc'] at hdec
-        simp only [List.cons_append, List.nil_append, List.cons.injEq] at hdec
-        rcases hkind with hk | hk <;> rw [← hdec.1] at hk <;> simp [isData, isHs] at hk
-      | cons x pre' =>
-        rw [htc'] at hdec
-        simp only [List.cons_append, List.cons.injEq] at hdec
-        refine List.mem_append.2 (.inr ?_)
-        rw [← hdec.1, hcid]; exact List.mem_cons_self ..
-  have hconn_pre : (∃ v3, .connect (evCid e) v3 ∈ evsOf s ++ pre) → .closed (evCid e) ∉ evsOf s ++ pre →
-      ∃ v3, .connect (evCid e) v3 ∈ pre := by
-    intro ⟨v3, hm⟩ hncl
-    rcases List.mem_append.1 hm with hm | hm
-    · exact absurd (hold v3 hm) hncl
-    · exact ⟨v3, hm⟩
-  cases e with
-  | connect c v => rcases hkind with hk | hk <;> simp [isData, isHs] at hk
-  | closed c => rcases hkind with hk | hk <;> simp [isData, isHs] at hk
-  | accept c k => rcases hkind with hk | hk <;> simp [isData, isHs] at hk
-  | forget c => rcases hkind with hk | hk <;> simp [isData, isHs] at hk
-  | wrHS cid ctr tok =>
-    exact ⟨hconn_pre hwf.2.1 hwf.2.2, by intro _ _ _ _ hh; cases hh⟩
-  | wrV2 cid fr =>
-    exact ⟨hconn_pre ⟨_, hwf.1⟩ hwf.2, by intro _ _ _ _ hh; cases hh⟩
-  | wrData cid ctr k fr =>
-    have hc := hconn_pre hwf.2.2.1 hwf.2.2.2
-    refine ⟨hc, ?_⟩
-    intro cid' ctr' k' fr' hh; cases hh
-    have hacc := lastAccept_some_mem hwf.1
-    rcases List.mem_append.1 hacc with hm | hm
-    · -- an acceptance in the old log means the connection existed in the old log: closed by now
-      exfalso
-      obtain ⟨l1, l2, hsplit⟩ := List.append_of_mem hm
-      have hw := hinv.wf l1 (.accept cid k) l2 (by show evsOf s = _; rw [hsplit]; simp)
-      obtain ⟨⟨v3, hcm⟩, _⟩ := hw
-      have : .connect cid v3 ∈ evsOf s := by rw [hsplit]; exact List.mem_append.2 (.inl hcm)
-      exact hwf.2.2.2 (hold v3 this)
-    · exact hm
-
-/-! ### non-vacuity: a concrete history reaches the states the theorems talk about -/
-
-/-- a peer that answers the first write of connection 1 with a (bogus) close: the invariant's
-    hypotheses are met by real histories, e.g. `authenticate` on a fresh object logs a V3 connect
-    followed by a handshake request with counter 0 carrying the token -/
-example :
-    (logAfter {} (fun _ _ => []) { w := { connects := [.ok] }, l := {} } [.authenticate [1, 2] [3]]).take 3 =
-      [.connect 1 true, .forget 1, .wrHS 1 0 [1, 2]] := by decide
-
-example : Fresh { w := { connects := [.ok] }, l := {} } := ⟨rfl, rfl, rfl⟩
-
-/-- the counter theorem at the 70,000th packet of a connection: 70000 mod 4096 -/
-example : 70000 % 4096 = 368 := by decide
-
-end Msmart.Props.C07
+import Msmart.Props.C07Session
+import Msmart.Props.C07Code
